@@ -149,7 +149,18 @@ def main():
         if os.path.exists(clean):
             drop(clean)
     os.makedirs(os.path.join(BASE, "results"), exist_ok=True)
-    json.dump(res, open(os.path.join(BASE, "results", name + ".json"), "w"), indent=1, default=str)
+    outp = os.path.join(BASE, "results", name + ".json")
+    if os.path.exists(outp):
+        # a partial re-run (--no-tests / --no-check) keeps what an earlier run of the same patch established
+        try:
+            old = json.load(open(outp))
+            if a.no_tests and "tests" in old:
+                res["tests"], res["tests_unchanged"] = old["tests"], old.get("tests_unchanged")
+            if a.no_check and "checks" in old:
+                res["checks"], res["detected"] = old["checks"], old.get("detected")
+        except Exception:
+            pass
+    json.dump(res, open(outp, "w"), indent=1, default=str)
     slim = {k: v for k, v in res.items() if k not in ("demo_clean_tail",)}
     for c in slim.get("checks", {}).values():
         c.pop("replay_doc", None)
